@@ -64,13 +64,15 @@ func (sc *SpecCtx) evalInt(c *Clause) Term {
 }
 
 func (sc *SpecCtx) lookupPkg(name string) *types.Package {
-	for _, imp := range sc.pkg.Pkg.Imports() {
-		if imp.Name() == name {
-			return imp
+	if sc.pkg != nil {
+		for _, imp := range sc.pkg.Pkg.Imports() {
+			if imp.Name() == name {
+				return imp
+			}
 		}
-	}
-	if sc.pkg.Pkg.Name() == name {
-		return sc.pkg.Pkg
+		if sc.pkg.Pkg.Name() == name {
+			return sc.pkg.Pkg
+		}
 	}
 	// any loaded package by name
 	for _, p := range sc.ex.P.prog.AllPackages() {
@@ -113,9 +115,11 @@ func (sc *SpecCtx) typeByExpr(e ast.Expr) types.Type {
 				return tn.Type()
 			}
 		}
-		if o := sc.pkg.Pkg.Scope().Lookup(x.Name); o != nil {
-			if tn, ok := o.(*types.TypeName); ok {
-				return tn.Type()
+		if sc.pkg != nil {
+			if o := sc.pkg.Pkg.Scope().Lookup(x.Name); o != nil {
+				if tn, ok := o.(*types.TypeName); ok {
+					return tn.Type()
+				}
 			}
 		}
 	case *ast.SelectorExpr:
@@ -208,6 +212,9 @@ func (sc *SpecCtx) eval(e ast.Expr) SV {
 		}
 		if v, ok := sc.vars[x.Name]; ok {
 			return v
+		}
+		if sc.pkg == nil {
+			sc.fail("unknown identifier %q", x.Name)
 		}
 		if o := sc.pkg.Pkg.Scope().Lookup(x.Name); o != nil {
 			switch oo := o.(type) {
@@ -678,7 +685,13 @@ func (sc *SpecCtx) call(x *ast.CallExpr) SV {
 				a, b := sc.eval(x.Args[0]), sc.eval(x.Args[1])
 				return SV{q.strEq(a.t, b.t), boolT}
 			}
-			if d := sc.ex.P.contracts.Defines[sc.pkg.Pkg.Path()+"."+id.Name]; d != nil {
+			d := sc.ex.P.contracts.Defines["."+id.Name]
+			if sc.pkg != nil {
+				if d2 := sc.ex.P.contracts.Defines[sc.pkg.Pkg.Path()+"."+id.Name]; d2 != nil {
+					d = d2
+				}
+			}
+			if d != nil {
 				if len(d.Params) != len(x.Args) {
 					sc.fail("define %s: want %d args", d.Name, len(d.Params))
 				}
@@ -707,6 +720,9 @@ func (sc *SpecCtx) call(x *ast.CallExpr) SV {
 				return v
 			}
 			// package-level function
+			if sc.pkg == nil {
+				sc.fail("unknown function %s", id.Name)
+			}
 			if f := sc.pkg.Func(id.Name); f != nil {
 				var args []SV
 				for _, a := range x.Args {
